@@ -20,7 +20,7 @@ const (
 func vHas(seq []int, x int) bool {
 	ok := false
 	for _, y := range seq {
-		ok = v.Or(ok, y == x)
+		ok = v.Or(ok, vl.Equiv(y, x)) // == for the hash sets; comparator equivalence for TreeSet
 	}
 	return ok
 }
